@@ -565,7 +565,9 @@ def write_evidence(prop, tier, seed, units, results, n_obl, n_dis, samples, boun
     fu = []
     trusted = ['A-printer: tools/cxx2c.py (clang AST -> C, closed rule set)', 'A-clang: clang 14 AST for -std=gnu++11 -DNDEBUG',
                'A-cbmc: cbmc/goto-instrument 6.11.0 + SAT/SMT back ends', 'A-alloc: new/malloc succeed, objects < 2^40 bytes',
-               'A-induction: invariant per operation => every history (paper step)', 'A-config: NDEBUG configuration only']
+               'A-induction: invariant per operation => every history (paper step)', 'A-config: NDEBUG configuration only',
+               'A-models: library types appear through the trusted models of models/*.h and tools/plugins.py (containers as heap, fixed-capacity or size-only models; opaque maps and sets as one-key oracles whose method contracts restate the standard; std::function as engaged flag + identity; mutexes as ghost counters): coverage.extraction.<unit>.models_used names them per unit',
+               'A-stubs: functions replaced by contract in a target (environment callbacks, kernel calls, callees of other units) are assumed to meet the contract written for them in specs/<ID>/*.py unless that callee is itself a target of this check']
     not_cov = list(meta.get('not_covered', []))
     extraction = {}
     for u in units:
